@@ -40,6 +40,8 @@ type Threads struct {
 	BeforeRelease func(thread int, name string) bool
 	// Aborted is set when BeforeRelease ended the run.
 	Aborted    bool
+	// MaxPoints > 0 ends the run when a schedule grows beyond it (a thread that retries forever); Deadlock names it.
+	MaxPoints int
 	daemonTail int
 }
 
@@ -285,6 +287,10 @@ func (s *Threads) Run() {
 			if choice >= len(ids) {
 				panic(fmt.Sprintf("vx: schedule prefix diverged at step %d: choice %d of %d enabled", at, choice, len(ids)))
 			}
+		}
+		if s.MaxPoints > 0 && len(s.Points) >= s.MaxPoints {
+			s.Deadlock = fmt.Sprintf("livelock: more than %d scheduling points without the threads finishing (parked at %v)", s.MaxPoints, names)
+			return
 		}
 		s.Points = append(s.Points, Point{Enabled: ids, Names: names, Chosen: choice, RunningStillEnabled: still})
 		th := s.threads[ids[choice]]
